@@ -55,6 +55,8 @@ SETUPS = {
     "noselect-live": [{"s": "B", "op": "delete", "m": "p"}, {"s": "A", "op": "select", "m": "INBOX"}],
     "noselect-restart": [{"s": "B", "op": "delete", "m": "p"}, {"s": "env", "op": "restart"}, {"s": "A", "op": "select", "m": "INBOX"}],
     "idling": [{"s": "A", "op": "select", "m": "INBOX"}, {"s": "A", "op": "idle"}],
+    # the same, but the client does not send DONE before its next command (a protocol error, still "a command a session sends")
+    "idling-impatient": [{"s": "A", "op": "select", "m": "INBOX"}, {"s": "A", "op": "idle"}],
     "after-restart": [{"s": "A", "op": "select", "m": "INBOX"}, {"s": "env", "op": "restart"}],
     # the server counts repeated SELECTs of the selected mailbox (it says BYE after too many): ten of them, the cell's
     # command is the next one
@@ -133,7 +135,9 @@ def work(unit):
 
             n += 1
             idling = st.model.session("A").idling
-            if idling:
+            impatient = setup == "idling-impatient"
+            idle_tag = st.cur_cmd.get("A", (None,))[0] if hasattr(st, "cur_cmd") else None
+            if idling and not impatient:
                 # a client in IDLE sends DONE first; the property is about the IDLE command itself
                 n0 = len(s.responses)
                 s.send_raw(b"DONE")
@@ -150,7 +154,7 @@ def work(unit):
             w.loop.run_until(lambda: s.done_or_closed(tag) or (is_idle and any(r.kind == "cont" for r in s.responses[n0:])), horizon=t0 + 125)
             dt = w.loop.time() - t0
             w.loop.settle()
-            if isinstance(cmd, str) and cmd == "IDLE":
+            if isinstance(cmd, str) and cmd == "IDLE" and not impatient:
                 cont = [r for r in s.responses[n0:] if r.kind == "cont"]
                 if not cont and not s.task.done():
                     if s.tagged(tag) is None:
@@ -194,6 +198,15 @@ def work(unit):
                 if not bye:
                     fail("C06.dropped-without-BYE", "session usable", "closed", log=_log(w))
                 continue
+            if impatient and tagged[0].typ == "BAD":
+                # refused because the session is idling: DONE still ends the IDLE with its own tagged OK
+                n2 = len(s.responses)
+                s.send_raw(b"DONE")
+                w.loop.run_until(lambda: any(r.kind == "tagged" for r in s.responses[n2:]) or s.task.done(), horizon=w.loop.time() + 125)
+                w.loop.settle()
+                tg = [r for r in s.responses[n2:] if r.kind == "tagged"]
+                if len(tg) != 1 or tg[0].typ != "OK" or tg[0].tag == tag:
+                    fail("C06.idle-not-terminated", "one tagged OK for the IDLE after DONE", [r.raw[:60].decode("latin-1") for r in s.responses[n2:]])
             r, _ = s.do("NOOP", horizon=20)
             if r is None or r.typ != "OK":
                 told = any(x.kind == "untagged" and x.typ == "BYE" for x in s.responses[n1:])
